@@ -231,6 +231,28 @@ PURE_CRATE_RE = re.compile(
 
 INT_TY = re.compile(r"^(u|i)(8|16|32|64|128|size)$")
 
+# reference naming of parameters / captured variables (tools/gen_names.py): atoms are named by function path and position, not by what the
+# source currently calls them, so a renamed parameter does not change any term
+try:
+    import json as _json, os as _os
+    _NAMES = _json.load(open(_os.path.join(_os.path.dirname(_os.path.abspath(__file__)), "names.json")))
+except Exception:
+    _NAMES = {"params": {}, "upvars": {}}
+
+
+def param_name(body, i):
+    ref = _NAMES["params"].get(body.path)
+    if ref is not None and len(ref) == body.nargs and i < len(ref):
+        return ref[i]
+    return body.locals[i + 1]["name"] or "arg%d" % i
+
+
+def upvar_name(body, k, actual):
+    ref = _NAMES["upvars"].get(body.path)
+    if ref is not None and str(k) in ref:
+        return ref[str(k)]
+    return actual
+
 
 class Frame:
     _next = [0]
@@ -301,12 +323,12 @@ class Evaluator:
                 continue
             k = fi[0]["i"]
             by_ref = pr and pr[-1] == "deref" and pr.index(fi[0]) < len(pr) - 1
-            atom = ("upvar", u["name"])
+            atom = ("upvar", upvar_name(body, k, u["name"]))
             ups[k] = ("ref", ("tmp", atom)) if by_ref else atom
             n = max(n, k + 1)
         env = ("closure", body.path, tuple(ups.get(i, ("upvar", "#%d" % i)) for i in range(n)))
         a0 = ("ref", ("tmp", env)) if body.locals[1]["ty"].startswith("&") else env
-        return [a0] + [("param", i, body.locals[i + 1]["name"] or "arg%d" % i) for i in range(1, body.nargs)]
+        return [a0] + [("param", i, param_name(body, i)) for i in range(1, body.nargs)]
 
     def run(self, body, args=None):
         if args is None and body.kind == "Closure" and body.nargs >= 1:
@@ -322,7 +344,7 @@ class Evaluator:
     # ------------------------------------------------------------------ body evaluation
     def _eval_body(self, body, args, chain, parent=None):
         if args is None:
-            args = [("param", i, body.locals[i + 1]["name"] or "arg%d" % i) for i in range(body.nargs)]
+            args = [("param", i, param_name(body, i)) for i in range(body.nargs)]
         widen = {}
         heap0 = dict(self.heap)
         ver0 = self.ver
